@@ -20,7 +20,7 @@ RULE = ("MazeDatasetCollection built from member datasets with prescribed length
 ASSUMPTIONS = ["member configs carry n_mazes == len(member) (what generation and update_self_config produce)"]
 EXHAUSTIVE = {"quick": False, "thorough": False}
 NSHARDS = {"quick": 16, "thorough": 16}
-THRESHOLDS = {"quick": {"c16:collections": 800, "c16:library-made": 120, "c16:derived-members:filters-of-one-base": 40, "c16:member-served-from-cache": 60, "c16:library-made:member-configs-with-filters": 50, "c16:index-checks": 3000, "c16:vec-exhaustive": 363, "c16:zero-first": 50,
+THRESHOLDS = {"quick": {"c16:collections": 800, "c16:library-made": 90, "c16:library-made:request-refused": 3, "c16:deep-copy-judged-after-original-changed": 10, "c16:derived-members:filters-of-one-base": 40, "c16:member-served-from-cache": 60, "c16:library-made:member-configs-with-filters": 50, "c16:index-checks": 3000, "c16:vec-exhaustive": 363, "c16:zero-first": 50,
                         "c16:zero-middle": 50, "c16:zero-last": 50, "c16:repeated-zeros": 50, "c16:mixed-grid": 100,
                         "c16:np-int-index": 300, "c16:long-members": 30, "c16:caller-list-mutated": 500, "c16:rebalanced-in-place": 300, "c16:config-object-reused": 500, "c16:many-members": 6, "c16:shared-member-names": 60, "c16:index-checks-second-pass": 2000}}
 THRESHOLDS["thorough"] = dict(THRESHOLDS["quick"])
@@ -176,9 +176,10 @@ def _library_made(ctx, n):
         k = int(rng.integers(1, 5))
         members = []
         for t in range(k):
-            gen = ["gen_dfs", "gen_dfs_percolation", "gen_prim"][int(rng.integers(3))]
-            members.append(MazeDatasetConfig(name=f"lm{t}", grid_n=int(rng.integers(3, 6)), n_mazes=int(rng.integers(1, 9)), maze_ctor=GENERATORS_MAP[gen],
-                                             maze_ctor_kwargs=dict(p=0.3) if gen == "gen_dfs_percolation" else {}, seed=int(rng.integers(1 << 20)),
+            gen = ["gen_dfs", "gen_dfs_percolation", "gen_prim", "gen_dfs", "gen_prim", "gen_dfs_percolation", "gen_dfs", "gen_percolation"][int(rng.integers(8))]
+            # (sparse percolation on 3x3: now and then a maze has no pair of endpoints, and the library refuses the whole request)
+            members.append(MazeDatasetConfig(name=f"lm{t}", grid_n=3 if gen == "gen_percolation" else int(rng.integers(3, 6)), n_mazes=int(rng.integers(1, 9)), maze_ctor=GENERATORS_MAP[gen],
+                                             maze_ctor_kwargs=dict(p=0.3) if gen == "gen_dfs_percolation" else (dict(p=[0.3, 0.45, 0.6][t % 3]) if gen == "gen_percolation" else {}), seed=int(rng.integers(1 << 20)),
                                              applied_filters=[dict(f) for f in FILTERS[int(rng.integers(len(FILTERS)))]]))
         how = ["generate", "from_config"][j % 2]
         case = dict(kind="library-made", how=how, members=[dict(grid_n=m.grid_n, n_mazes=m.n_mazes, filters=[f["name"] for f in m.applied_filters]) for m in members])
@@ -186,8 +187,12 @@ def _library_made(ctx, n):
             with warnings.catch_warnings():
                 warnings.simplefilter("ignore")
                 ccfg = MazeDatasetCollectionConfig(name=f"libmade{j}", maze_dataset_configs=members)
-                col = MazeDatasetCollection.generate(ccfg) if how == "generate" else \
-                    MazeDatasetCollection.from_config(ccfg, load_local=False, save_local=False, do_download=False)
+                try:
+                    col = MazeDatasetCollection.generate(ccfg) if how == "generate" else \
+                        MazeDatasetCollection.from_config(ccfg, load_local=False, save_local=False, do_download=False)
+                except ValueError:
+                    ctx.tally("c16:library-made:request-refused")
+                    continue
             ctx.ev(); ctx.tally("c16:library-made"); ctx.tally(f"c16:library-made:{how}")
             if any(m.applied_filters for m in members):
                 ctx.tally("c16:library-made:member-configs-with-filters")
@@ -246,6 +251,29 @@ def _derived_members(ctx, n):
                     continue
                 col = MazeDatasetCollection(MazeDatasetCollectionConfig(name=f"derived{j}", maze_dataset_configs=[m.cfg for m in members]), members)
             ctx.ev(); ctx.tally("c16:derived-members"); ctx.tally(f"c16:derived-members:{how}")
+            # a deep copy of the collection, taken before the ORIGINAL is changed (a member replaced by a filtered version of itself,
+            # its config put in the slot, counts brought up to date): the untouched copy must still agree with itself
+            if j % 3 == 0 and len(members) >= 1 and len(members[0]) >= 2:
+                import copy as _copy
+                try:
+                    with warnings.catch_warnings():
+                        warnings.simplefilter("ignore")
+                        cp = _copy.deepcopy(col)
+                        lens_cp = [len(m) for m in cp.maze_datasets]
+                        smaller = col.maze_datasets[0].filter_by.truncate_count(1)
+                        col.maze_datasets[0] = smaller
+                        col.cfg.maze_dataset_configs[0] = smaller.cfg
+                        col.update_self_config()
+                        for c_ in col.cfg.maze_dataset_configs[1:]:
+                            c_.n_mazes = int(c_.n_mazes)   # (touch)
+                    ctx.tally("c16:deep-copy-judged-after-original-changed")
+                    ok_cp = (len(cp) == sum(lens_cp) and [int(x) for x in cp.dataset_lengths] == lens_cp and int(cp.cfg.n_mazes) == sum(lens_cp)
+                             and [int(c_.n_mazes) for c_ in cp.cfg.maze_dataset_configs] == lens_cp)
+                    ctx.check(ok_cp, "C16/deep-copy-disagrees-after-original-changed",
+                              lambda: f"copy's members hold {lens_cp}; len()={len(cp)}, dataset_lengths={list(cp.dataset_lengths)}, cfg.n_mazes={cp.cfg.n_mazes}, member cfg counts {[int(c_.n_mazes) for c_ in cp.cfg.maze_dataset_configs]}", case)
+                    members = list(col.maze_datasets)
+                except TypeError:
+                    ctx.tally("c16:deep-copy-refused(not judged)")
             lens = [len(m) for m in members]
             total = sum(lens)
             concat = [mz for m in members for mz in m.mazes]
